@@ -147,18 +147,21 @@ UrlClass(u) ==
        ELSE "either"
   ELSE "either"
 
-RECURSIVE FoldReq(_, _, _, _)
-FoldReq(es, i, x, ver) ==     \* x accumulates method / uri / reqh ; returns [res, x]
+\* lenient = TRUE: a URL whose acceptance is left to net/url ("either") is taken as accepted, so that what an
+\* accepting reader must then return (the very bytes of the file) is still specified
+UrlClassL(u, lenient) == IF lenient /\ UrlClass(u) = "either" THEN "ok" ELSE UrlClass(u)
+RECURSIVE FoldReq(_, _, _, _, _)
+FoldReq(es, i, x, ver, lenient) ==     \* x accumulates method / uri / reqh ; returns [res, x]
   IF i > Len(es) THEN [res |-> "ok", x |-> x]
   ELSE LET k == es[i].k  v == es[i].v IN
        IF NonAscii(k) THEN [res |-> "either", x |-> x]
        ELSE IF HasUpperAscii(k) THEN [res |-> "err", x |-> x]
-       ELSE IF k = S_method THEN FoldReq(es, i + 1, [x EXCEPT !.method = v], ver)
+       ELSE IF k = S_method THEN FoldReq(es, i + 1, [x EXCEPT !.method = v], ver, lenient)
        ELSE IF k = S_url THEN
             (IF ver # "1b1" THEN [res |-> "err", x |-> x]
-             ELSE IF UrlClass(v) = "ok" THEN FoldReq(es, i + 1, [x EXCEPT !.uri = v], ver)
-             ELSE [res |-> UrlClass(v), x |-> x])
-       ELSE FoldReq(es, i + 1, [x EXCEPT !.reqh = HAdd(x.reqh, CanonKey(k), v)], ver)
+             ELSE IF UrlClassL(v, lenient) = "ok" THEN FoldReq(es, i + 1, [x EXCEPT !.uri = v], ver, lenient)
+             ELSE [res |-> UrlClassL(v, lenient), x |-> x])
+       ELSE FoldReq(es, i + 1, [x EXCEPT !.reqh = HAdd(x.reqh, CanonKey(k), v)], ver, lenient)
 RECURSIVE FoldResp(_, _, _)
 FoldResp(es, i, x) ==
   IF i > Len(es) THEN [res |-> "ok", x |-> x]
@@ -168,13 +171,13 @@ FoldResp(es, i, x) ==
        ELSE IF k = S_status THEN (IF StatusVal(v) >= 0 THEN FoldResp(es, i + 1, [x EXCEPT !.status = StatusVal(v)]) ELSE [res |-> "either", x |-> x])
        ELSE FoldResp(es, i + 1, [x EXCEPT !.resph = HAdd(x.resph, CanonKey(k), v)])
 
-ReadHeaders(hb, x0) ==      \* hb = the header block
+ReadHeaders(hb, x0, lenient) ==      \* hb = the header block
   IF HasRequestMap(x0)
   THEN LET a == HeadAt(hb, 1) IN
        IF ~(a.ok /\ a.mt = 4 /\ a.arg = U64(2)) THEN BadRead("err")
        ELSE LET rq == ReadBstrMap(hb, a.next) IN
             IF ~rq.ok THEN BadRead("err")
-            ELSE LET f1 == FoldReq(rq.es, 1, x0, x0.ver) IN
+            ELSE LET f1 == FoldReq(rq.es, 1, x0, x0.ver, lenient) IN
                  IF f1.res # "ok" THEN BadRead(f1.res)
                  ELSE LET rs == ReadBstrMap(hb, rq.p) IN
                       IF ~rs.ok THEN BadRead("err")
@@ -184,7 +187,7 @@ ReadHeaders(hb, x0) ==      \* hb = the header block
        ELSE LET f2 == FoldResp(rs.es, 1, [x0 EXCEPT !.method = S_GET]) IN IF f2.res # "ok" THEN BadRead(f2.res) ELSE [res |-> "ok", x |-> f2.x]
 
 VerOfMagic(m) == IF m = Magic1 THEN "1b1" ELSE IF m = Magic2 THEN "1b2" ELSE IF m = Magic3 THEN "1b3" ELSE ""
-RefRead(f) ==
+RefReadL(f, lenient) ==
   IF Len(f) < 8 \/ VerOfMagic(SubSeq(f, 1, 8)) = "" THEN BadRead("err")
   ELSE LET ver == VerOfMagic(SubSeq(f, 1, 8))
            x0 == [ver |-> ver, uri |-> <<>>, method |-> <<>>, reqh |-> <<>>, status |-> 0, resph |-> <<>>, payload |-> <<>>, sighdr |-> <<>>]
@@ -193,14 +196,16 @@ RefRead(f) ==
            p == IF ver = "1b1" THEN 9 ELSE 11 + ulen
        IN IF ver # "1b1" /\ Len(f) < 10 + ulen THEN BadRead("err")
           ELSE LET uri == IF ver = "1b1" THEN <<>> ELSE Sub(f, 11, ulen) IN
-               IF ver # "1b1" /\ UrlClass(uri) # "ok" THEN BadRead(UrlClass(uri))
+               IF ver # "1b1" /\ UrlClassL(uri, lenient) # "ok" THEN BadRead(UrlClassL(uri, lenient))
                ELSE IF Len(f) < p + 5 THEN BadRead("err")
                ELSE LET sl == BEVal(SubSeq(f, p, p + 2))
                         hl == BEVal(SubSeq(f, p + 3, p + 5))
                     IN IF Len(f) < p + 5 + sl + hl THEN BadRead("err")
-                       ELSE LET r == ReadHeaders(Sub(f, p + 6 + sl, hl), [x0 EXCEPT !.uri = uri, !.sighdr = Sub(f, p + 6, sl)]) IN
+                       ELSE LET r == ReadHeaders(Sub(f, p + 6 + sl, hl), [x0 EXCEPT !.uri = uri, !.sighdr = Sub(f, p + 6, sl)], lenient) IN
                             IF r.res # "ok" THEN r
                             ELSE [res |-> "ok", x |-> [r.x EXCEPT !.payload = SubSeq(f, p + 6 + sl + hl, Len(f))]]
+
+RefRead(f) == RefReadL(f, FALSE)
 
 -----------------------------------------------------------------------------
 \* Signature validity and the acceptance policy.   t = [s |-> U64 seconds, ns |-> 0..999999999]
